@@ -389,6 +389,52 @@ func init() {
 				}
 				return true
 			})
+			// ... and range values over a local slice that only ever receives entries (`entries = append(entries,
+			// bind)` with bind an entry variable: the well-formed entries, collected once)
+			for pass := 0; pass < 2; pass++ {
+				entrySlices := map[types.Object]bool{}
+				notOnly := map[types.Object]bool{}
+				ast.Inspect(fd.Body, func(n ast.Node) bool {
+					as, ok := n.(*ast.AssignStmt)
+					if !ok || len(as.Lhs) != 1 || len(as.Rhs) != 1 {
+						return true
+					}
+					o := identObj(info, as.Lhs[0])
+					if o == nil {
+						return true
+					}
+					if _, isSlice := o.Type().Underlying().(*types.Slice); !isSlice {
+						return true
+					}
+					ce, ok := ast.Unparen(as.Rhs[0]).(*ast.CallExpr)
+					if ok && types.ExprString(ce.Fun) == "append" && len(ce.Args) >= 2 && identObj(info, ce.Args[0]) == o && !ce.Ellipsis.IsValid() {
+						all := true
+						for _, el := range ce.Args[1:] {
+							if !entryVars[identObj(info, el)] {
+								all = false
+							}
+						}
+						if all {
+							entrySlices[o] = true
+						} else {
+							notOnly[o] = true
+						}
+						return true
+					}
+					if as.Tok != token.DEFINE || !isNilIdent(info, as.Rhs[0]) {
+						notOnly[o] = true
+					}
+					return true
+				})
+				ast.Inspect(fd.Body, func(n ast.Node) bool {
+					if rs, ok := n.(*ast.RangeStmt); ok && rs.Value != nil {
+						if o := identObj(info, rs.X); o != nil && entrySlices[o] && !notOnly[o] {
+							entryVars[identObj(info, rs.Value)] = true
+						}
+					}
+					return true
+				})
+			}
 			// bodyParamIsBody: every call of the marking function passes, for the body parameter, the forms
 			// of the binding form from position >= 2 on — `sexpr.Cells[k:]` with k >= 2 (or `at+1` with
 			// at >= 1), written at the call or as the corresponding result of the helper that takes the
